@@ -30,7 +30,7 @@ theorem step_sset_equal (fuel : Nat) (P : Prog) (s : Storage) (i v : Nat) (nd : 
 /-! ## fresh nodes are served without execution (call-free programs) -/
 
 theorem anyDep_fresh (ex : Storage → NodeId → Storage × Res Bool) :
-    ∀ (deps : List Dep) (s : Storage), SrcOnly deps → DepsFresh s deps →
+    ∀ (deps : List Dep) (s : Storage), NoDerived deps → DepsMatch s s.srcs s.maps deps →
       anyDep (depChanged ex) deps s = (s, .ok false) := by
   intro deps
   induction deps with
@@ -39,19 +39,25 @@ theorem anyDep_fresh (ex : Storage → NodeId → Storage × Res Bool) :
     intro s hso hf
     have ih' := ih s (fun d' hd' => hso d' (List.mem_cons_of_mem _ hd'))
       (fun d' hd' => hf d' (List.mem_cons_of_mem _ hd'))
-    obtain ⟨k, hk⟩ := hso d List.mem_cons_self
-    obtain ⟨nd, hnd, hle⟩ := hf d List.mem_cons_self k hk
+    have hm := hf d List.mem_cons_self
     simp only [anyDep]
     by_cases he : d.stamp = s.epoch
     · rw [if_pos he]; exact ih'
     · rw [if_neg he]
-      simp only [depChanged, hk, hnd]
-      have : ¬ nd.tu > d.stamp := by omega
-      simp [this, ih']
+      unfold DepMatch at hm
+      rcases hso d List.mem_cons_self with ⟨k, hk⟩ | ⟨k, hk⟩
+      · rw [hk] at hm
+        obtain ⟨⟨nd, hnd, hle⟩, _⟩ := hm
+        simp only [depChanged, hk, hnd]
+        have : ¬ nd.tu > d.stamp := by omega
+        simp [this, ih']
+      · rw [hk] at hm
+        simp only [depChanged, hk, hm.1]
+        simp [ih']
 
-/-- a present node with fresh dependencies: `exec` runs no body, whatever the fuel -/
+/-- a present node whose dependencies all match the current state: `exec` runs no body -/
 theorem exec_fresh_runs {P : Prog} (n : Nat) (s : Storage) (id : NodeId) (r : Rev) (hst : s.stack = [])
-    (hl : alookup s.derived id = some r) (hso : SrcOnly r.deps) (hf : DepsFresh s r.deps) :
+    (hl : alookup s.derived id = some r) (hso : NoDerived r.deps) (hf : DepsMatch s s.srcs s.maps r.deps) :
     ∃ s' b, exec (n + 1) P s id = (s', .ok b) ∧ s'.runs = s.runs ∧ s'.log = s.log ∧
       (alookup s'.derived id).map (·.val) = some r.val := by
   rw [exec_succ]
@@ -69,13 +75,17 @@ theorem exec_fresh_runs {P : Prog} (n : Nat) (s : Storage) (id : NodeId) (r : Re
                  derived := ainsert s.derived id (Rev.mk r.val r.tu s.epoch r.deps) } := by
       simp [setTv, hl]
     simp only [hsetTv]
-    rw [anyDep_fresh (exec n P) r.deps _ hso (by exact hf)]
+    have hA := anyDep_fresh (exec n P) r.deps
+      { s with topCalls := s.topCalls ++ [id], pushes := s.pushes ++ [id],
+               derived := ainsert s.derived id (Rev.mk r.val r.tu s.epoch r.deps) } hso
+      (fun d hd => (hf d hd).congr rfl rfl)
+    rw [hA]
     exact ⟨_, false, rfl, by simp [regDep, hst], by simp [regDep, hst],
       by simp [regDep, hst, alookup_ainsert_self]⟩
 
 theorem step_call_fresh_runs {P : Prog} (fuel : Nat) (s : Storage) (f a : Nat) (r : Rev) (hfuel : 1 ≤ fuel)
-    (hst : s.stack = []) (hl : alookup s.derived (nodeOf P f a) = some r) (hso : SrcOnly r.deps)
-    (hf : DepsFresh s r.deps) :
+    (hst : s.stack = []) (hl : alookup s.derived (nodeOf P f a) = some r) (hso : NoDerived r.deps)
+    (hf : DepsMatch s s.srcs s.maps r.deps) :
     (step fuel P s (.call f a)).1.runs = s.runs ∧ (step fuel P s (.call f a)).1.log = s.log ∧
       ((step fuel P s (.call f a)).2 = .dead ∨ (step fuel P s (.call f a)).2 = .val r.val) := by
   unfold step
@@ -91,42 +101,57 @@ theorem step_call_fresh_runs {P : Prog} (fuel : Nat) (s : Storage) (f a : Nat) (
       rw [hl'] at hv; simp at hv
       simp [hr, hlg, hv]
 
-/-! ## writes to keys outside the recorded dependencies keep them fresh -/
+/-! ## writes to keys outside the recorded dependencies keep them matching -/
 
-theorem depsFresh_setSource (s : Storage) (deps : List Dep) (k0 : Key) (v : Nat)
-    (hf : DepsFresh s deps) (hk : k0 ∉ depKeys deps) : DepsFresh (setSource s k0 v) deps := by
-  intro d hd k hdk
-  have hne : k0 ≠ k := fun e => hk (e ▸ mem_depKeys.2 ⟨d, hd, hdk⟩)
-  obtain ⟨nd, hnd, hle⟩ := hf d hd k hdk
-  refine ⟨nd, ?_, hle⟩
+theorem depsMatch_other_key (s s' : Storage) (deps : List Dep) (k0 : Key)
+    (hm : s'.maps = s.maps) (hsame : ∀ k, k ≠ k0 → alookup s'.srcs k = alookup s.srcs k)
+    (hf : DepsMatch s s.srcs s.maps deps)
+    (hk : ∀ d, d ∈ deps → d.node ≠ .source k0 ∧ d.node ≠ .absent k0) : DepsMatch s' s'.srcs s'.maps deps := by
+  intro d hd
+  have h := hf d hd
+  unfold DepMatch at h ⊢
+  cases hn : d.node with
+  | source k =>
+    rw [hn] at h
+    have hne : k ≠ k0 := fun e => (hk d hd).1 (by rw [hn, e])
+    simp only at h
+    obtain ⟨⟨nd, hnd, hle⟩, _⟩ := h
+    exact ⟨⟨nd, by rw [hsame k hne]; exact hnd, hle⟩, rfl⟩
+  | absent k =>
+    rw [hn] at h
+    have hne : k ≠ k0 := fun e => (hk d hd).2 (by rw [hn, e])
+    simp only at h
+    exact ⟨by rw [hsame k hne]; exact h.1, by rw [hm]; exact h.2⟩
+  | derived m => rw [hn] at h; exact h
+
+theorem setSource_other (s : Storage) (k0 : Key) (v : Nat) :
+    (setSource s k0 v).maps = s.maps ∧ (setSource s k0 v).derived = s.derived ∧
+      ∀ k, k ≠ k0 → alookup (setSource s k0 v).srcs k = alookup s.srcs k := by
   unfold setSource
   split
   · split
-    · simp only [alookup_ainsert_ne _ _ _ _ hne]; exact hnd
-    · exact hnd
-  · simp only [alookup_ainsert_ne _ _ _ _ hne]; exact hnd
+    · exact ⟨rfl, rfl, fun k hne => alookup_ainsert_ne _ _ _ _ (Ne.symm hne)⟩
+    · exact ⟨rfl, rfl, fun _ _ => rfl⟩
+  · exact ⟨rfl, rfl, fun k hne => alookup_ainsert_ne _ _ _ _ (Ne.symm hne)⟩
 
-theorem depsFresh_removeSource (s : Storage) (deps : List Dep) (k0 : Key)
-    (hf : DepsFresh s deps) (hk : k0 ∉ depKeys deps) : DepsFresh (removeSource s k0) deps := by
-  intro d hd k hdk
-  have hne : k0 ≠ k := fun e => hk (e ▸ mem_depKeys.2 ⟨d, hd, hdk⟩)
-  obtain ⟨nd, hnd, hle⟩ := hf d hd k hdk
-  refine ⟨nd, ?_, hle⟩
+theorem removeSource_other (s : Storage) (k0 : Key) :
+    (removeSource s k0).maps = s.maps ∧ (removeSource s k0).derived = s.derived ∧
+      ∀ k, k ≠ k0 → alookup (removeSource s k0).srcs k = alookup s.srcs k := by
   unfold removeSource
   split
-  · simp only [alookup_aerase_ne _ _ _ hne]; exact hnd
-  · exact hnd
-
+  · exact ⟨rfl, rfl, fun k hne => alookup_aerase_ne _ _ _ (Ne.symm hne)⟩
+  · exact ⟨rfl, rfl, fun _ _ => rfl⟩
 
 /-! ## history level -/
 
 /-- after a clean call of a call-free function the node is there, verified in the current epoch,
-with source-only fresh dependencies (or the storage is poisoned) -/
+and its dependencies (sources, present or absent) match the current state — or the storage is
+poisoned -/
 theorem after_call_fresh {P : Prog} (hflat : Flat P) (fuel : Nat) (s : Storage) (f a : Nat) (hinv : Inv1 P s)
-    (hclean : ∃ v, evalSS fuel P s.srcs s.maps [] (nodeOf P f a) = .ok v) :
+    (hclean : ∃ v, evalS fuel P s.srcs s.maps [] (nodeOf P f a) = .ok v) :
     let s1 := (step fuel P s (.call f a)).1
     Inv1 P s1 ∧ (s1.poisoned = true ∨
-      ∃ r, alookup s1.derived (nodeOf P f a) = some r ∧ SrcOnly r.deps ∧ DepsFresh s1 r.deps) := by
+      ∃ r, alookup s1.derived (nodeOf P f a) = some r ∧ NoDerived r.deps ∧ DepsMatch s1 s1.srcs s1.maps r.deps) := by
   obtain ⟨v, hv⟩ := hclean
   have h1 := (step_call_flat hflat fuel s f a v hinv hv).1
   refine ⟨h1, ?_⟩
@@ -134,9 +159,9 @@ theorem after_call_fresh {P : Prog} (hflat : Flat P) (fuel : Nat) (s : Storage) 
   · left; unfold step; rw [if_pos hp]; exact hp
   · right
     cases fuel with
-    | zero => simp [evalSS] at hv
+    | zero => simp [evalS] at hv
     | succ n =>
-      simp only [evalSS] at hv
+      simp only [evalS] at hv
       rw [if_neg (by simp)] at hv
       obtain ⟨s', b, r, he, hinv', hl, hval, hep, hsr, hmp, hpo, htv⟩ := exec_flat hflat _ n s (nodeOf P f a) v hinv hv
       have hs1 : (step (n + 1) P s (.call f a)).1 =
@@ -144,62 +169,46 @@ theorem after_call_fresh {P : Prog} (hflat : Flat P) (fuel : Nat) (s : Storage) 
         unfold step; rw [if_neg hp]; simp only [callVia, he, hl]
       rw [hs1]
       have hok := hinv'.nodes _ r hl
-      exact ⟨r, hl, hok.srcOnly, hok.fresh_now htv⟩
+      exact ⟨r, hl, hok.noDerived, fun d hd => (hok.fresh_now htv d hd).congr rfl rfl⟩
 
 /-- **unrelated write, call-free programs**: after a clean call of `(f, a)`, writing (with any value)
 or removing a keyed source that is not among the node's recorded dependencies, then calling `(f, a)`
 again, runs no body at all. -/
 theorem unrelated_write_no_rerun {P : Prog} (hflat : Flat P) (fuel : Nat) (hfuel : 1 ≤ fuel) (s : Storage) (f a : Nat)
-    (hinv : Inv1 P s) (hclean : ∃ v, evalSS fuel P s.srcs s.maps [] (nodeOf P f a) = .ok v) (op : Op) (k : Nat)
+    (hinv : Inv1 P s) (hclean : ∃ v, evalS fuel P s.srcs s.maps [] (nodeOf P f a) = .ok v) (op : Op) (k : Nat)
     (hop : (∃ v, op = .set k v) ∨ op = .rem k)
     (hk : ∀ r, alookup (step fuel P s (.call f a)).1.derived (nodeOf P f a) = some r →
-          ∀ d, d ∈ r.deps → d.node ≠ .source (.src k)) :
+          ∀ d, d ∈ r.deps → d.node ≠ .source (.src k) ∧ d.node ≠ .absent (.src k)) :
     let s1 := (step fuel P s (.call f a)).1
     let s2 := (step fuel P s1 op).1
     (step fuel P s2 (.call f a)).1.runs = s2.runs ∧ (step fuel P s2 (.call f a)).1.log = s2.log := by
   intro s1 s2
   obtain ⟨hinv1, hcase⟩ := after_call_fresh hflat fuel s f a hinv hclean
-  rcases hcase with hp | ⟨r, hl, hso, hf⟩
-  · -- poisoned: nothing runs any more
-    have hs2 : s2 = s1 := by
-      show (step fuel P s1 op).1 = s1
-      unfold step; rw [if_pos hp]
-    have : (step fuel P s2 (.call f a)).1 = s2 := by
-      rw [hs2]; unfold step; rw [if_pos hp]
+  have hpois : ∀ sX : Storage, sX.poisoned = true → (step fuel P sX op).1 = sX ∧ (step fuel P sX (.call f a)).1 = sX := by
+    intro sX hp
+    exact ⟨by unfold step; rw [if_pos hp], by unfold step; rw [if_pos hp]⟩
+  by_cases hp : s1.poisoned = true
+  · have hs2 : s2 = s1 := (hpois s1 hp).1
+    have : (step fuel P s2 (.call f a)).1 = s2 := by rw [hs2]; exact (hpois s1 hp).2
     rw [this]; exact ⟨rfl, rfl⟩
-  · have hnk : Key.src k ∉ depKeys r.deps := by
-      intro hmem
-      obtain ⟨d, hd, hdk⟩ := mem_depKeys.1 hmem
-      exact hk r hl d hd hdk
-    by_cases hp : s1.poisoned = true
-    · have hs2 : s2 = s1 := by
-        show (step fuel P s1 op).1 = s1
-        unfold step; rw [if_pos hp]
-      have : (step fuel P s2 (.call f a)).1 = s2 := by
-        rw [hs2]; unfold step; rw [if_pos hp]
-      rw [this]; exact ⟨rfl, rfl⟩
-    · have hs2 : s2.stack = [] ∧ alookup s2.derived (nodeOf P f a) = some r ∧ DepsFresh s2 r.deps := by
+  · rcases hcase with hp' | ⟨r, hl, hso, hf⟩
+    · exact absurd hp' hp
+    · have hs2 : s2.stack = [] ∧ alookup s2.derived (nodeOf P f a) = some r ∧ DepsMatch s2 s2.srcs s2.maps r.deps := by
         rcases hop with ⟨v, rfl⟩ | rfl
         · have e : s2 = setSource s1 (.src k) v := by
             show (step fuel P s1 (.set k v)).1 = _
             unfold step; rw [if_neg hp]
           rw [e]
-          refine ⟨?_, ?_, depsFresh_setSource s1 r.deps _ v hf hnk⟩
-          · have := (hinv1.setSource' (.src k) v).stack; exact this
-          · have : (setSource s1 (.src k) v).derived = s1.derived := by
-              unfold setSource; split
-              · split <;> rfl
-              · rfl
-            rw [this]; exact hl
+          obtain ⟨o1, o2, o3⟩ := setSource_other s1 (.src k) v
+          exact ⟨(hinv1.setSource' (.src k) v).stack, by rw [o2]; exact hl,
+            depsMatch_other_key s1 _ r.deps (.src k) o1 o3 hf (hk r hl)⟩
         · have e : s2 = removeSource s1 (.src k) := by
             show (step fuel P s1 (.rem k)).1 = _
             unfold step; rw [if_neg hp]
           rw [e]
-          refine ⟨?_, ?_, depsFresh_removeSource s1 r.deps _ hf hnk⟩
-          · exact (hinv1.removeSource (.src k)).stack
-          · have : (removeSource s1 (.src k)).derived = s1.derived := by
-              unfold removeSource; split <;> rfl
-            rw [this]; exact hl
+          obtain ⟨o1, o2, o3⟩ := removeSource_other s1 (.src k)
+          exact ⟨(hinv1.removeSource (.src k) (fun i e => by cases e)).stack, by rw [o2]; exact hl,
+            depsMatch_other_key s1 _ r.deps (.src k) o1 o3 hf (hk r hl)⟩
       have := step_call_fresh_runs (P := P) fuel s2 f a r hfuel hs2.1 hs2.2.1 hso hs2.2.2
       exact ⟨this.1, this.2.1⟩
 
